@@ -41,6 +41,10 @@ const FIELD_NAMES: [&str; PARAM_FIELDS] = [
 /// a perturbation: fields to overwrite (index, value); applied to whatever the estimator answers
 #[derive(Clone, Debug, PartialEq, Default)]
 pub struct Perturbation {
+    /// do not enforce the estimator's implication zlib_compatible => !to_start && !very_far: the
+    /// three flags are then taken as independent (a superset of what the estimator emits jointly;
+    /// the library is robust there too, and the property text lists "flags" as a free dimension)
+    pub independent_flags: bool,
     pub set: Vec<(usize, u32)>,
     /// replace the whole vector by the fixed no-dictionary vector of the given strategy (2 = HuffOnly, 3 = Store)
     pub no_dictionary: Option<u32>,
@@ -69,7 +73,7 @@ impl Perturbation {
         if v[vh::P_MAX_LAZY] == 0 {
             v[vh::P_GOOD_LENGTH] = 0;
         }
-        if v[vh::P_ZLIB_COMPATIBLE] != 0 {
+        if v[vh::P_ZLIB_COMPATIBLE] != 0 && !self.independent_flags {
             v[vh::P_VERY_FAR_MATCHES] = 0;
             v[vh::P_MATCHES_TO_START] = 0;
         }
@@ -83,6 +87,7 @@ impl Perturbation {
     }
     pub fn to_json(&self) -> J {
         J::obj()
+            .set("independent_flags", J::Bool(self.independent_flags))
             .set(
                 "set",
                 J::Arr(
@@ -110,6 +115,7 @@ impl Perturbation {
             set.push((i, e.get_u64("value").ok_or("value")? as u32));
         }
         Ok(Perturbation {
+            independent_flags: j.get("independent_flags").and_then(|x| x.as_bool()).unwrap_or(false),
             set,
             no_dictionary: j.get("no_dictionary").and_then(|x| x.as_u64()).map(|x| x as u32),
         })
@@ -148,6 +154,7 @@ const NICE: [u32; 5] = [8, 16, 32, 128, 258];
 pub fn random_perturbation(rng: &mut Rng, thorough: bool) -> Perturbation {
     if rng.chance(1, 24) {
         return Perturbation {
+            independent_flags: false,
             set: Vec::new(),
             no_dictionary: Some(*rng.pick(&[2u32, 3])),
         };
@@ -159,6 +166,7 @@ pub fn random_perturbation(rng: &mut Rng, thorough: bool) -> Perturbation {
         _ => rng.range(4, 8) as usize,
     };
     let mut set: Vec<(usize, u32)> = Vec::new();
+    let mut independent_flags = false;
     for _ in 0..nfields {
         match rng.below(12) {
             0 => set.push((vh::P_WINDOW_BITS, rng.range(9, 15) as u32)),
@@ -216,6 +224,7 @@ pub fn random_perturbation(rng: &mut Rng, thorough: bool) -> Perturbation {
             _ => {
                 // flags (the estimator's implication zlib_compatible => !to_start && !very_far is enforced in apply)
                 let z = rng.below(2) as u32;
+                independent_flags = rng.chance(1, 3);
                 set.push((vh::P_ZLIB_COMPATIBLE, z));
                 set.push((vh::P_VERY_FAR_MATCHES, rng.below(2) as u32));
                 set.push((vh::P_MATCHES_TO_START, rng.below(2) as u32));
@@ -225,7 +234,11 @@ pub fn random_perturbation(rng: &mut Rng, thorough: bool) -> Perturbation {
             }
         }
     }
-    Perturbation { set, no_dictionary: None }
+    Perturbation {
+        independent_flags,
+        set,
+        no_dictionary: None,
+    }
 }
 
 #[derive(Clone, Debug, PartialEq)]
